@@ -595,6 +595,8 @@ var c11Builtins = []string{
 	"ts.I64 = crc32(jso.s, jso.big, \"lit\")\nobj.Status = crc32(st.Id)\nobj.Finance.AllowBuy = atob(jso.t)\nobj.Finance.AllowBuy = strToBool(\"true\")\n",
 	"obj.Name = jso.nul|default(jso.s)\nobj.Id = jso.missing|def(\"dflt\")\nts.S = jso.t|ifThen(jso.s)\nts.B = jso.fl|ifThenElse(\"yes\", jso.s2)\nobj.Status = jso.z|default(jso.big)\n",
 	"for i := 250; i < 262; i++ {\nobj.Status = i\nts.I = i\n}\nfor k, v := range jso.a {\nts.I64 = atoi(v)\n}\n",
+	"for k, v := range jso.objs {\nfor k2, v2 := range jso.a {\nfor k3, v3 := range jso.b {\ntestns::foo(k, k2, k3, v.id, v2, v3)\n}\nfor _, r := range jso.grid {\nts.I = r.0\n}\n}\n}\nfor _, h := range st.Finance.History {\nfor _, h2 := range obj.Finance.History {\nts.I64 = h2.DateUnix\n}\n}\n",
+	"for i := 0; i < 3; i++ {\nfor j := 2; j >= 0; j-- {\nfor l := 1; l != 3; l++ {\nts.I = l\nif j == 1 {\ncontinue\n}\nif l == 2 {\nbreak 2\n}\n}\n}\n}\nobj.Name = \"lit\"\nts.S = 'another literal of some length'\nobj.Id = jso.missing|default(\"dflt\")\n",
 	"ctx.x = jso.big\nobj.Status = x\nctx.y = 70000\nts.I = y\nif x == 70001 {\nts.U64 = atou(x)\n}\nswitch jso.big {\ncase 300:\nts.I = 1\ncase jso.big:\nts.I = atoi(jso.big)\n}\n",
 }
 
